@@ -303,8 +303,9 @@ def run_live(case):
 
 def SHARDS(tier):
     cat = catalogue()
-    k = 1 if tier == "quick" else 2
-    sh = [{"part": "enum", "cat": i, "preemptions": k} for i in range(len(cat))]
+    # quick: every single deviation from run-to-block for all configurations, and every pair of deviations for the small ones
+    sh = [{"part": "enum", "cat": i, "preemptions": 2 if (tier != "quick" or (c["njobs"] <= 2 and c["size"] <= 2 and not c["blocking"])) else 1}
+          for i, c in enumerate(cat)]
     sh += [{"part": "random"} for _ in range(4 if tier == "quick" else 8)]
     sh += [{"part": "live"}]
     return sh
